@@ -13,12 +13,14 @@ def run(run):
     per = 400 if run.tier == "quick" else 5000
     jobs = [dict(seed=run.seed * 31 + k, count=per // 8) for k in range(8)]
     res, errs = native.pmap("contracts.gbslib", "nat_gbs_search", jobs)
+    run.worker_errors(errs, len(jobs))
     ev = sum(r["evaluations"] for r in res if r and "_error" not in r)
     fails = [f for r in res if r and "_error" not in r for f in r["failures"]]
     run.bounded_result("compiled apply_gbs: all clauses on generated inputs (ties at the threshold, zero volumes, chi = 0)", "pydrex.utils.apply_gbs", f"{ev} inputs, n in 1..400", ev, fails, ev)
     per = 2 if run.tier == "quick" else 20
     jobs = [dict(seed=run.seed, start=k * per, count=per) for k in range(12)]
     res, errs = native.pmap("contracts.scenarios", "run_gbs_scenarios", jobs)
+    run.worker_errors(errs, len(jobs))
     ev = sum(r["evaluations"] for r in res if r and "_error" not in r)
     fails = [f for r in res if r and "_error" not in r for f in r["failures"]]
     run.bounded_result("real updates in which grains shrink through the threshold: floored grains keep their start-of-update orientation", UF.FN, f"{ev} update histories (1-10 updates, chi in 0/0.3/0.5/0.9, n in 16/40/120)", ev, fails, ev)
